@@ -69,6 +69,7 @@ func vSize(lo, hi int) int {
 	}
 	return v
 }
+func vKnob(lo, hi int) int { return vSize(lo, hi) }
 func vAssume(c bool) {
 	if !c {
 		panic(vAssumeFail{})
